@@ -333,7 +333,9 @@ pub fn sass_string_sq(input: Span) -> PResult<SassString> {
 fn cleanup_escape_ws(parts: &mut [StringPart]) {
     let mut t_iter = parts.iter_mut().peekable();
     while let Some(ref mut item) = t_iter.next() {
+        // A hex escape, not the escaped space `\ ` itself.
         if let StringPart::Raw(s) = item
+            && s.len() > 2
             && s.starts_with('\\')
             && s.ends_with(' ')
         {
@@ -345,6 +347,7 @@ fn cleanup_escape_ws(parts: &mut [StringPart]) {
                     if let Some(next) = next.chars().next()
                         && !next.is_ascii_hexdigit()
                         && next != '\t'
+                        && next != ' '
                     {
                         s.pop();
                     }
